@@ -160,6 +160,24 @@ def module_uid_refused(sym, n):
     sym.check("no-stream-refused", raised)
 
 
+def module_uid_spec(sym, n):
+    """a module UID is accepted exactly when it has two to four non-empty ':'-separated fields (NAME:STREAM[:VERSION[:CONTEXT]], a
+    texts without a directory prefix); anything else - five fields included - is refused with ValueError and nothing is filed"""
+    text = sym.str("uid", n, alphabet=["a", "b", "1", ":", "."])          # no '/': a directory prefix may itself contain colons (module_uid covers prefixes)
+    colons = text.count(":")
+    ok = sym.and_(colons >= 1, colons <= 3, sym.not_(text.startswith(":")), sym.not_(text.endswith(":")), sym.not_("::" in text))
+    m = Modules()
+    try:
+        m.add("Server", "x86_64", text, "tag", "Server/x86_64/os/repodata/m.yaml", "binary", ["x-0:1-1.noarch"])
+        raised = False
+    except ValueError:
+        raised = True
+    sym.cover("called")
+    sym.check("accepted-iff-two-to-four-fields", sym.iff(raised, sym.not_(ok)))
+    if raised:
+        sym.check("nothing-filed", m.modules == {})
+
+
 UIDS = ["mod:stream", "ruby:2.5:20180123:c0ffee", "dir/perl:5.26:1", "nostream", "modules/ruby:2.5:20180123:c0ffee"]
 UID_CANON = ["mod:stream", "ruby:2.5:20180123:c0ffee", "perl:5.26:1", None, "ruby:2.5:20180123:c0ffee"]
 
@@ -388,6 +406,7 @@ def jobs(tier, seed):
         for wd in (False, True):
             out.append({"harness": "module_uid", "params": {"n": n, "nparts": nparts, "with_dir": wd}})
     out.append({"harness": "module_uid_refused", "params": {"n": 16 if big else 10}})
+    out.append({"harness": "module_uid_spec", "params": {"n": 12 if big else 9}})
     for nparts in (2, 3, 4):
         out.append({"harness": "module_uid_history", "params": {"nparts": nparts}})
     for pre in (0, 1, 2):
@@ -420,7 +439,7 @@ def jobs(tier, seed):
 
 
 META = {
-    "expected_covers": {"rpms_step": ["called", "accepted"], "rpms_add_symbolic_key": ["called"], "module_uid": ["parsed"], "module_uid_history": ["parsed"], "module_uid_refused": ["called"],
+    "expected_covers": {"rpms_step": ["called", "accepted"], "rpms_add_symbolic_key": ["called"], "module_uid": ["parsed"], "module_uid_history": ["parsed"], "module_uid_refused": ["called"], "module_uid_spec": ["called"],
                         "modules_step": ["called", "accepted"], "extra_step": ["called", "accepted"],
                         "modules_shared_list": ["called"], "extra_shared_dict": ["called"], "relative_inside": ["called"], "relative_outside": ["called"], "dump_for_tree": ["dumped"]},
     "assumptions": [
@@ -429,6 +448,7 @@ META = {
         "rpms_add_symbolic_key: name / version / release of 1-2 characters, epoch 0..99, every binary arch of the table, with and without '.rpm' and a directory prefix",
         "Rpms.add with an empty path is neither required to be refused nor to be accepted (the documentation is silent): path has at least one character there",
         "sigkey over hexadecimal digits (documented as a key id), so that str.lower() is exact",
+        "module_uid_spec: every string of up to 9 (thorough 12) characters over {a, b, 1, '.', ':'} as the UID of a Modules.add",
         "module UID parts are free of ':', '/' and newline (a '/' inside a stream would be read as a directory prefix)",
     ],
 }
